@@ -217,7 +217,7 @@ Definition t_parse_oid (st : rdr) : cres (bytes * rdr) :=
 Definition hash_known (h : N) : bool := existsb (N.eqb h) gen.PgpTables.pgp_hash_ids.
 
 (* s2k/s2k.go:162 Parse *)
-Definition t_s2k_parse (oripemd : bool) (st : rdr) : cres rdr :=
+Definition t_s2k_parse (oripemd : bool) (st : rdr) : cres (unit * rdr) :=
   tick (Make 9 (rdr_rem st))
   (let+ (b, st1) := rd_full_io 2 st in
    let mode := nth 0 b 0 in
@@ -225,9 +225,9 @@ Definition t_s2k_parse (oripemd : bool) (st : rdr) : cres rdr :=
    if negb (hash_known h) then rfail "hash for S2K function" else
    if (h =? 3) && negb oripemd then rfail "hash not available" else
    tick (Grow 256)                                  (* hash.New() *)
-   (if mode =? 0 then rret st1
-    else if mode =? 1 then let+ (_, st2) := rd_full_io 8 st1 in rret st2
-    else if mode =? 3 then let+ (_, st2) := rd_full_io 9 st1 in rret st2
+   (if mode =? 0 then rret (tt, st1)
+    else if mode =? 1 then let+ (_, st2) := rd_full_io 8 st1 in rret (tt, st2)
+    else if mode =? 3 then let+ (_, st2) := rd_full_io 9 st1 in rret (tt, st2)
     else rfail "S2K function")).
 
 (* ------------------------------------------------------------------------------------- *)
@@ -279,12 +279,11 @@ Definition t_parse_public_key_v3 (sub : bool) (st : rdr) : cres (tkey * rdr) :=
    if (v <? 2) || (3 <? v) then rfail "public key version" else
    let algo := nth 7 b 0 in
    if negb ((algo =? 1) || (algo =? 2) || (algo =? 3)) then rfail "public key type" else
-   let+ (n, _, st2) := t_read_mpi st1 in
-   let+ (e, _, st3) := t_read_mpi st2 in
-   if lenN n <? 8 then rfail "v3 public key modulus is too short" else
-   if 3 <? lenN e then rfail "large public exponent" else
-   logged (setbytes_log n ++ [Grow sizeof_keystruct; Grow sizeof_fingerprint])
-     (rret (mk_tkey algo [n; e] sub true, st3))).
+   let+ (ms, st3) := t_read_mpis 2 st1 in
+   if lenN (nth 0 ms []) <? 8 then rfail "v3 public key modulus is too short" else
+   if 3 <? lenN (nth 1 ms []) then rfail "large public exponent" else
+   logged [Grow sizeof_keystruct; Grow sizeof_fingerprint]
+     (rret (mk_tkey algo ms sub true, st3))).
 
 (* ------------------------------------------------------------------------------------- *)
 (* private keys                                                                           *)
@@ -328,7 +327,7 @@ Definition t_parse_private_key (oripemd : bool) (sub : bool) (st : rdr) : cres (
      (if s2k =? 0 then rret (false, st2)
       else if (s2k =? 254) || (s2k =? 255) then
         let+ (c, st3) := rd_full 1 st2 in
-        let+ st4 := t_s2k_parse oripemd st3 in
+        let+ (_, st4) := t_s2k_parse oripemd st3 in
         let bsz := cipher_block_size (nth 0 c 0) in
         if bsz =? 0 then rfail "unsupported cipher in private key" else
         tick (Make bsz (rdr_rem st4))
@@ -545,6 +544,31 @@ Definition ignored_tag (tag : N) : bool :=     (* known to packet.Read, outside 
 Definition lift_parse {A} (f : A -> tpacket) (m : cres (A * rdr)) : cres (tpacket * rdr) :=
   rmap (fun p => (f (fst p), snd p)) m.
 
+(* the parser of a modelled tag, with the packet structure it fills; [v]: the version octet that
+   peekVersion saw (signatures and public keys) *)
+Definition t_parse_body (oripemd : bool) (tag v : N) (st : rdr) : cres (tpacket * rdr) :=
+  if tag =? 2 then
+    (if v <? 4 then tick (Grow sizeof_signature_v3) (lift_parse TSig (t_parse_signature_v3 st))
+     else tick (Grow sizeof_signature) (lift_parse TSig (t_parse_signature st)))
+  else if (tag =? 6) || (tag =? 14) then
+    (if v <? 4 then tick (Grow sizeof_public_key_v3) (lift_parse (fun k => TKey k false) (t_parse_public_key_v3 (tag =? 14) st))
+     else tick (Grow sizeof_public_key) (lift_parse (fun k => TKey k false) (t_parse_public_key (tag =? 14) st)))
+  else if (tag =? 5) || (tag =? 7) then
+    tick (Grow sizeof_private_key) (lift_parse (fun k => TKey k true) (t_parse_private_key oripemd (tag =? 7) st))
+  else if tag =? 13 then tick (Grow sizeof_userid) (lift_parse TUid (t_parse_userid st))
+  else tick (Grow sizeof_userattr) (lift_parse TAttr (t_parse_userattr st)).
+
+(* what packet.Read returns for the result of a parser: io.EOF out of a parser ends the stream for
+   Reader.Next like the end of the input; on an error the rest of the packet is consumed *)
+Definition t_finish (l1 : log) (parsed : cres (tpacket * rdr)) : cost (tres * bytes) :=
+  match parsed with
+  | (Ok (p, st'), l2) => ((TOk p, rdr_pos st'), l1 ++ l2)
+  | (Err e, l2) => ((if String.eqb e "EOF" then TEnd else TFail e, []), l1 ++ l2 ++ [Make 1024 0])   (* consumeAll *)
+  | (Panic e, l2) => ((TFail e, []), l1 ++ l2)
+  end.
+
+Definition peeked_tag (tag : N) : bool := (tag =? 2) || (tag =? 6) || (tag =? 14).
+
 (* packet.go:356 Read.  Returns what Next sees and where the underlying reader then stands. *)
 Definition t_read (oripemd : bool) (r : bytes) : cost (tres * bytes) :=
   match pgp_read_header r with
@@ -556,32 +580,13 @@ Definition t_read (oripemd : bool) (r : bytes) : cost (tres * bytes) :=
       if negb (modelled_tag tag) then
         (* default: err = UnknownPacketTypeError; consumeAll(contents) *)
         let '((_, _, st'), l2) := rd_all st in ((TSkip, rdr_pos st'), l ++ l2 ++ [Make 1024 0])
-      else
-        (* io.EOF out of a parser ends the stream for Reader.Next like the end of the input *)
-        let finish (parsed : cres (tpacket * rdr)) (l1 : log) : cost (tres * bytes) :=
-          match parsed with
-          | (Ok (p, st'), l2) => ((TOk p, rdr_pos st'), l1 ++ l2)
-          | (Err e, l2) => ((if String.eqb e "EOF" then TEnd else TFail e, []), l1 ++ l2 ++ [Make 1024 0])   (* consumeAll *)
-          | (Panic e, l2) => ((TFail e, []), l1 ++ l2)
-          end in
-        if (tag =? 2) || (tag =? 6) || (tag =? 14) then
-          (* peekVersion: bufio.NewReader(contents), Peek(1); an error is returned as it is *)
-          match rd_peek1 st with
-          | (inr e, l2) => ((if e then TEnd else TFail "unexpected EOF", []), l ++ Grow sizeof_bufio :: l2)
-          | (inl (v, st1), l2) =>
-              finish
-                (if tag =? 2 then
-                   (if v <? 4 then tick (Grow sizeof_signature_v3) (lift_parse TSig (t_parse_signature_v3 st1))
-                    else tick (Grow sizeof_signature) (lift_parse TSig (t_parse_signature st1)))
-                 else
-                   (if v <? 4 then tick (Grow sizeof_public_key_v3) (lift_parse (fun k => TKey k false) (t_parse_public_key_v3 (tag =? 14) st1))
-                    else tick (Grow sizeof_public_key) (lift_parse (fun k => TKey k false) (t_parse_public_key (tag =? 14) st1))))
-                (l ++ Grow sizeof_bufio :: l2)
-          end
-        else if (tag =? 5) || (tag =? 7) then
-          finish (tick (Grow sizeof_private_key) (lift_parse (fun k => TKey k true) (t_parse_private_key oripemd (tag =? 7) st))) l
-        else if tag =? 13 then finish (tick (Grow sizeof_userid) (lift_parse TUid (t_parse_userid st))) l
-        else finish (tick (Grow sizeof_userattr) (lift_parse TAttr (t_parse_userattr st))) l
+      else if peeked_tag tag then
+        (* peekVersion: bufio.NewReader(contents), Peek(1); an error is returned as it is *)
+        match rd_peek1 st with
+        | (inr e, l2) => ((if e then TEnd else TFail "unexpected EOF", []), l ++ Grow sizeof_bufio :: l2)
+        | (inl (v, st1), l2) => t_finish (l ++ Grow sizeof_bufio :: l2) (t_parse_body oripemd tag v st1)
+        end
+      else t_finish l (t_parse_body oripemd tag 0 st)
   end.
 
 (* reader.go:31 Reader.Next without a pushed-back packet *)
